@@ -122,6 +122,24 @@ func check(id, tier string) int {
 		if evA == nil {
 			return 2
 		}
+		lopt := opt
+		if quick {
+			lopt.Cases, lopt.RunsPerCase, lopt.Budget = 800, 6, 2*time.Minute
+		} else {
+			lopt.Cases, lopt.RunsPerCase, lopt.Budget = 60000, 10, 40*time.Minute
+		}
+		codeL, evL := chancheck.RunLargeCollect(lopt)
+		if evL == nil {
+			return 2
+		}
+		evA.Coverage["evaluations"] = evA.Coverage["evaluations"].(int) + evL.Coverage["evaluations"].(int)
+		evA.Coverage["distinct_nontrivial"] = evA.Coverage["distinct_nontrivial"].(int) + evL.Coverage["distinct_nontrivial"].(int)
+		evA.Coverage["workload_A_large"] = map[string]any{"cases": evL.Coverage["cases"], "rule": evL.Coverage["rule"], "distinct_interleavings": evL.Coverage["distinct_interleavings"], "counters": evL.Coverage["counters"], "samples": evL.Coverage["samples"]}
+		evA.Violations += evL.Violations
+		evA.WallS += evL.WallS
+		if codeL == 1 {
+			codeA = 1
+		}
 		codeB, evB := progeng.RunCollect(c03b.Spec(tier, seed(), workers()))
 		if evB == nil {
 			return 2
@@ -187,6 +205,8 @@ func replay(rp *evidence.Replay) int {
 		return c19.Replay(rp)
 	case "chanscript":
 		return chancheck.Replay(rp)
+	case "chanscript-large":
+		return chancheck.ReplayLarge(rp)
 	case "syncscript":
 		return synccheck.Replay(rp)
 	}
